@@ -321,6 +321,9 @@ package sqlite
 //@ ensures err == nil ==> result != nil
 
 //@ func (*SqliteStoreWorker).searchPromises
+// a library call the engine has no model of yields an arbitrary value instead of ending the path: what is passed to
+// the statement is still compared with the specification
+//@ abstract-calls external
 //@ props C16 C17 C02 C20 C14 C01 C04
 // every requested tag contributes its predicate and its two arguments to the statement (C14)
 //@ count-appends
@@ -359,6 +362,9 @@ package sqlite
 //@ ensures err == nil ==> result != nil
 
 //@ func (*SqliteStoreWorker).searchSchedules
+// a library call the engine has no model of yields an arbitrary value instead of ending the path: what is passed to
+// the statement is still compared with the specification
+//@ abstract-calls external
 //@ props C16 C17 C02 C20 C14 C10 C01
 // every requested tag contributes its predicate and its two arguments to the statement: no tag of the filter is
 // dropped (C14: nothing that does not match is returned)
